@@ -21,8 +21,8 @@ def main():
         by = run.summary()
         n = sum(len(v) for v in by.values())
         bad = [(k, r) for k, v in by.items() for r in v if r.status != "discharged"]
-        print("== %s: status=%s paths=%d completed=%d obligations=%d bad=%d canary=%s outcomes=%s  %.2fs" % (
-            c.qualname, run.status, run.paths, run.completed_paths, n, len(bad), run.canary_ok, run.outcomes, time.time() - t))
+        print("== %s%s: status=%s paths=%d completed=%d obligations=%d bad=%d canary=%s outcomes=%s  %.2fs" % (
+            c.qualname, "[%s]" % c.variant if c.variant else "", run.status, run.paths, run.completed_paths, n, len(bad), run.canary_ok, run.outcomes, time.time() - t))
         if run.message:
             print("   ", run.message)
         for k, r in bad[:12]:
